@@ -444,7 +444,7 @@ def gen_case(rng, spec):
         return {'kind': 'random', 'shape': 'deep', 'net': netgen.deep_description(rng, spec['depths']),
                 'rseed': rng.getrandbits(32), 'shuffle': False}
     shape = rng.choice(netgen.SHAPES)
-    net = netgen.rand_net(rng, shape=shape, max_in=6, max_g=spec.get('max_g', 14), max_arity=spec.get('max_arity', 4),
+    net = netgen.rand_net(rng, shape=shape, max_in=6, min_in=0 if rng.random() < 0.05 else 1, max_g=spec.get('max_g', 14), max_arity=spec.get('max_arity', 4),
                           label_style=rng.choice(['plain', 'plain', 'digits', 'at', 'keyword', 'derived', 'odd']), p_wide=0.05)
     return {'kind': 'random', 'shape': shape, 'net': netgen.describe(net), 'rseed': rng.getrandbits(32),
             'shuffle': rng.random() < 0.3}
